@@ -216,6 +216,7 @@ func c43Template(rng *rand.Rand, cfg gConfig) []gOp {
 
 func TestVerifC43(t *testing.T) {
 	r := verifkit.Start(t, "C43", "group")
+	gSeedSalt = r.Seed
 	defer r.Finish("real GroupCoordinator (cleanup interval 100-500 ms) over the real InMemoryStore on synctest virtual time; half the cases are PRNG op lists rich in heartbeats and time advances, half are structured timing scenarios (members heartbeating with a period below their session timeout through stable phases and through long rebalances, one member silent or lagging the rebalance). The stored member set is probed at every cleanup tick instant and after every request. Lower bound: a member may disappear (other than by its own LeaveGroup) only at t >= last accepted contact + session timeout (accepted contact = JoinGroup reply, Heartbeat answered 0 or REBALANCE_IN_PROGRESS), or, while the group is preparing a rebalance it has not re-joined, at t >= rebalance start + smallest rebalance timeout in use. Upper bound: a listed member whose last request of any kind is older than session + cleanup interval is a violation; so is a laggard still listed later than last join by anyone + largest rebalance timeout + cleanup interval. A removal that leaves members behind must raise the stored generation. non-trivial = case with a legitimate expiry and a member that outlived join+session only thanks to heartbeats",
 		"heartbeats answered ILLEGAL_GENERATION/UNKNOWN_MEMBER_ID do not count as heartbeating for the lower bound but do count as contact for the upper bound (lenient both ways)", "either trigger (session lapse, or rebalance timeout for a member that has not re-joined) legitimises a removal", "exact because time is virtual and probes sit on the cleanup ticks")
 	p := gDefaultProfile
@@ -226,7 +227,7 @@ func TestVerifC43(t *testing.T) {
 	p.Rebals = []int64{1500, 3000, 6000, 12000}
 	p.Cleanups = []int64{100, 250, 500}
 	p.MixRebal = true
-	n := r.N(1000, 30000)
+	n := r.N(700, 30000)
 	seen := func(w *gWorld, ev *gEvent) { r.Seen("group_states", w.stateSig(ev.After)) }
 	account := func(ci int, w *gWorld, o *c43Obs) {
 		if w.blocked {
